@@ -51,6 +51,11 @@ fn main() {
                 let d = sc.to_json();
                 (vh::engine::window::run_window(&sc), d)
             }
+            "shutdown" => {
+                let sc = vh::engine::shutdown::gen_shutdown(seed);
+                let d = sc.to_json();
+                (vh::engine::shutdown::run_shutdown(&sc), d)
+            }
             other => panic!("unknown family {}", other),
         };
         let nt = out.stats.get("catalogue.applied") > 0 || out.stats.get("nontrivial") > 0;
